@@ -89,6 +89,42 @@ theorem desTransform_state (s : Des) (inv : Bool) (inp : Input) : (desTransform 
     · rfl
     · split <;> rfl
 
+/-- `update` never changes the object (repo commit 1ad9b8f) -/
+theorem desUpdate_state (s : Des) (inp : Input) : (desUpdate s inp).1 = s := by
+  unfold desUpdate
+  split
+  · rfl
+  · split <;> rfl
+
+theorem desDecompose_error_state (s : Des) (z : Series) (d : FitData) (e : Err)
+    (h : (desDecompose s z d).2 = .err e) : (desDecompose s z d).1 = s := by
+  unfold desDecompose at h ⊢
+  by_cases hdc : (!decompOk s.sp s.mult z) = true
+  · simp only [hdc, ↓reduceIte]
+  · simp only [hdc, Bool.false_eq_true, ↓reduceIte] at h ⊢
+    cases hd : d.seasonal with
+    | none => rfl
+    | some seas => simp [hd] at h
+
+/-- a `fit` that raises leaves the object exactly as it was (repo commit 1ad9b8f) -/
+theorem desFit_error_state (s : Des) (inp : Input) (d : FitData) (e : Err)
+    (h : (desFit s inp d).2 = .err e) : (desFit s inp d).1 = s := by
+  unfold desFit at h ⊢
+  cases hcs : checkSeries false inp with
+  | error e' => rfl
+  | ok z =>
+    simp only [hcs] at h ⊢
+    by_cases hc : s.cond = true
+    · simp only [hc, ↓reduceIte] at h ⊢
+      cases his : d.isSeasonal with
+      | none => rfl
+      | some b =>
+        cases b with
+        | true => simp only [his] at h ⊢; exact desDecompose_error_state s z d e h
+        | false => simp [his] at h
+    · simp only [hc, Bool.false_eq_true, ↓reduceIte] at h ⊢
+      exact desDecompose_error_state s z d e h
+
 /-- a successful `fit` on a series starting at `t0` establishes the reference -/
 theorem desFit_phaseRef (s : Des) (hsp : 0 < s.sp) (inp : Input) (d : FitData)
     (hd : ∀ seas, d.seasonal = some seas → seas.length = s.sp)
@@ -102,7 +138,6 @@ theorem desFit_phaseRef (s : Des) (hsp : 0 < s.sp) (inp : Input) (d : FitData)
     simp only [hcs] at hok ⊢
     cases z with
     | nil =>
-      -- checkSeries false never returns an empty series
       cases inp with
       | notSeries => simp [checkSeries] at hcs
       | floatIndex => simp [checkSeries] at hcs
@@ -112,11 +147,10 @@ theorem desFit_phaseRef (s : Des) (hsp : 0 < s.sp) (inp : Input) (d : FitData)
         simp [checkSeries_series, labels, sortedLE] at hcs
     | cons p rest =>
       obtain ⟨t0, v⟩ := p
-      have key : ∀ s1 : Des, s1.sp = s.sp → s1.mult = s.mult → s1.y0 = some t0 →
-          (desDecompose s1 ((t0, v) :: rest) d).2 = .ok →
-          ∃ seas, PhaseRef (desDecompose s1 ((t0, v) :: rest) d).1 t0 seas ∧
-            (desDecompose s1 ((t0, v) :: rest) d).1.sp = s.sp ∧ (desDecompose s1 ((t0, v) :: rest) d).1.mult = s.mult := by
-        intro s1 h1 h2 h3 h4
+      have key : (desDecompose s ((t0, v) :: rest) d).2 = .ok →
+          ∃ seas, PhaseRef (desDecompose s ((t0, v) :: rest) d).1 t0 seas ∧
+            (desDecompose s ((t0, v) :: rest) d).1.sp = s.sp ∧ (desDecompose s ((t0, v) :: rest) d).1.mult = s.mult := by
+        intro h4
         unfold desDecompose at h4 ⊢
         split at h4
         · simp at h4
@@ -125,11 +159,11 @@ theorem desFit_phaseRef (s : Des) (hsp : 0 < s.sp) (inp : Input) (d : FitData)
           cases hds : d.seasonal with
           | none => simp [hds] at h4
           | some seas =>
-            refine ⟨seas, ⟨rfl, rfl, ⟨by simpa [h1] using hsp, ?_⟩, t0, h3, by simp⟩, h1, h2⟩
+            refine ⟨seas, ⟨rfl, rfl, ⟨hsp, ?_⟩, t0, by simp [labels], by simp⟩, rfl, rfl⟩
             intro seas' hs'
             simp only [Option.some.injEq] at hs'
             subst hs'
-            rw [h1]; exact hd seas hds
+            exact hd seas hds
       by_cases hc : s.cond = true
       · simp only [hc, ↓reduceIte] at hok ⊢
         cases his : d.isSeasonal with
@@ -138,7 +172,7 @@ theorem desFit_phaseRef (s : Des) (hsp : 0 < s.sp) (inp : Input) (d : FitData)
           cases b with
           | true =>
             simp only [his] at hok ⊢
-            obtain ⟨seas, h⟩ := key { s with y0 := (labels ((t0, v) :: rest)).head?, cond := true } rfl rfl rfl hok
+            obtain ⟨seas, h⟩ := key hok
             exact ⟨_, seas, t0, v, rest, rfl, rfl, h⟩
           | false =>
             refine ⟨_, List.replicate s.sp (if s.mult = true then 1 else 0), t0, v, rest, rfl, rfl, ?_, rfl, rfl⟩
@@ -148,33 +182,7 @@ theorem desFit_phaseRef (s : Des) (hsp : 0 < s.sp) (inp : Input) (d : FitData)
             subst hs'
             simp
       · simp only [hc, Bool.false_eq_true, ↓reduceIte] at hok ⊢
-        obtain ⟨seas, h⟩ := key { s with y0 := (labels ((t0, v) :: rest)).head?, cond := false } rfl rfl rfl hok
+        obtain ⟨seas, h⟩ := key hok
         exact ⟨_, seas, t0, v, rest, rfl, rfl, h⟩
-
-/-- `update` keeps the reference iff the batch starts a multiple of the period away from it
-(or is rejected) -/
-theorem desUpdate_phaseRef (s : Des) (t0 : Int) (seas : List Rat) (h : PhaseRef s t0 seas) (inp : Input)
-    (ha : ∀ z u v rest, checkSeries false inp = .ok z → z = (u, v) :: rest → (u - t0) % (s.sp : Int) = 0) :
-    PhaseRef (desUpdate s inp).1 t0 seas ∧ (desUpdate s inp).1.sp = s.sp ∧ (desUpdate s inp).1.mult = s.mult := by
-  obtain ⟨hf, hs, hwf, y0, hy, hm⟩ := h
-  unfold desUpdate
-  simp only [hf, Bool.not_true, Bool.false_eq_true, ↓reduceIte]
-  cases hcs : checkSeries false inp with
-  | error e => exact ⟨⟨hf, hs, hwf, y0, hy, hm⟩, rfl, rfl⟩
-  | ok z =>
-    cases z with
-    | nil =>
-      cases inp with
-      | notSeries => simp [checkSeries] at hcs
-      | floatIndex => simp [checkSeries] at hcs
-      | series z' =>
-        have := checkSeries_series_ok false z' [] hcs
-        subst this
-        simp [checkSeries_series, labels, sortedLE] at hcs
-    | cons p rest =>
-      obtain ⟨u, v⟩ := p
-      dsimp only
-      refine ⟨⟨rfl, hs, hwf, u, by simp [labels], ?_⟩, rfl, rfl⟩
-      exact ha _ u v rest hcs rfl
 
 end SkVerif.Lem.ST
